@@ -164,13 +164,14 @@ def constructor(w, seed, spec):
             fails.append(f'axis_destination={a} with {m}-d values: {type(e).__name__}')
     for bad, why in [(jnp.float32(2.0), 'scalar values'), ({'a': jnp.ones(3)}, 'pytree-valued values'),
                      ([jnp.ones(3), jnp.ones(3)], 'pytree-valued values')]:
-        try:
-            B(bad, axis_destination=0, in_structure=S((3,)))
-            fails.append(f'{why} accepted')
-        except ValueError:
-            pass
-        except Exception as e:      # noqa: BLE001
-            fails.append(f'{why}: {type(e).__name__} instead of ValueError')
+        for ad in (0, -1, (0,), (), [1]):
+            try:
+                B(bad, axis_destination=ad, in_structure=S((3, 2)))
+                fails.append(f'{why} accepted (axis_destination={ad})')
+            except ValueError:
+                pass
+            except Exception as e:      # noqa: BLE001
+                fails.append(f'{why} (axis_destination={ad}): {type(e).__name__} instead of ValueError')
     for ad, shape, why in [((0, -2), (2, 2), 'duplicated axes after normalisation'), ((1, 1), (2, 2), 'duplicated axes')]:
         try:
             B(jnp.ones((2, 2)), axis_destination=ad, in_structure=S(shape))
